@@ -96,9 +96,11 @@ CLAIMED = {
         "Narrow: two guest goroutines under the executor's cooperative scheduler (all interleavings within a context bound of 2 "
         "preemptions) share one value and perform the first use of its lazily cached state (GenericTuple Names/ordered names/"
         "bucket, positionalRelation index cache through two concurrent joins); a vector-clock happens-before detector over the "
-        "interpreted memory reports unordered conflicting accesses, and results are compared with the serial ones. Races are "
-        "confirmed natively with `go test -race`.",
-        "2 goroutines x 1 operation; preemption at synchronisation operations only; sync.Once/Mutex/Cond/WaitGroup/atomic/channels "
+        "interpreted memory reports unordered conflicting accesses, and results are compared with the serial ones. A third harness "
+        "compiles 10 programs (tuple maps, joins, nest, orderby, rank, where ...) with the real parser/compiler and evaluates the "
+        "one compiled expression from two goroutines over a shared tuple and relation. Races are confirmed natively with "
+        "`go test -race`.",
+        "2 goroutines x 1 operation or 1 whole evaluation; preemption at synchronisation operations only; sync.Once/Mutex/Cond/WaitGroup/atomic/channels "
         "modelled per the Go memory model; the std-scope/bindata lazies in syntax and frozen's parallel fan-out are outside"),
     "C12": (
         "Partial (string-literal codec kernel): bounded symbolic execution of the real printer (String/Bytes/Array.Format, "
